@@ -4,5 +4,220 @@ From Koala Require Import Model.Points.
 Import ListNotations.
 Open Scope Z_scope.
 
+(* ------------------------------------------------------------------ basic facts *)
+Lemma d2_sym : forall a b, d2 a b = d2 b a.
+Proof. intros [a1 a2] [b1 b2]. unfold d2. simpl. ring. Qed.
+
+Lemma far_from_all_spec : forall sc l p,
+  far_from_all sc l p = true -> forall s, In s l -> sc * sc < d2 p s.
+Proof.
+  intros sc l p Hf s Hin. unfold far_from_all in Hf.
+  rewrite forallb_forall in Hf. specialize (Hf s Hin). lia.
+Qed.
+
+Lemma out_of_domain_false : forall sc nx ny p,
+  out_of_domain sc nx ny p = false ->
+  0 <= fst p <= sc * nx /\ 0 <= snd p <= sc * ny.
+Proof. intros sc nx ny p H. unfold out_of_domain in H. lia. Qed.
+
+(* what an accepted candidate satisfies (pointsets.py:36-41) *)
+Lemma inner_accept : forall sc nx ny ss left i cands j p,
+  inner sc nx ny ss i left cands = Accept j p ->
+  out_of_domain sc nx ny p = false /\ far_from_all sc ss p = true /\
+  (i <= j)%nat /\ nth_error cands (j - i) = Some p.
+Proof.
+  intros sc nx ny ss left. induction left as [|left IH]; intros i cands j p H; simpl in H.
+  - discriminate.
+  - destruct cands as [|x1 rest]; [discriminate|].
+    destruct (out_of_domain sc nx ny x1) eqn:Eo.
+    + apply IH in H. destruct H as (H1 & H2 & H3 & H4). repeat split; auto; try lia.
+      replace (j - i)%nat with (S (j - S i)) by lia. exact H4.
+    + destruct (far_from_all sc ss x1) eqn:Ef.
+      * inversion H; subst. repeat split; auto. now rewrite Nat.sub_diag.
+      * destruct left as [|left']; [discriminate|].
+        apply IH in H. destruct H as (H1 & H2 & H3 & H4). repeat split; auto; try lia.
+        replace (j - i)%nat with (S (j - S i)) by lia. exact H4.
+Qed.
+
+(* ------------------------------------------------------------------ spacing invariant *)
+Definition pairwise_far (sc : Z) (l : list pt) : Prop :=
+  forall i j a b, i <> j -> nth_error l i = Some a -> nth_error l j = Some b -> sc * sc < d2 a b.
+
+Lemma pairwise_far_single : forall sc x, pairwise_far sc [x].
+Proof.
+  intros sc x i j a b Hij Ha Hb.
+  destruct i as [|i]; destruct j as [|j]; try lia; simpl in *;
+    try (destruct i; discriminate); try (destruct j; discriminate).
+Qed.
+
+Lemma pairwise_far_snoc : forall sc l p,
+  pairwise_far sc l -> far_from_all sc l p = true -> pairwise_far sc (l ++ [p]).
+Proof.
+  intros sc l p Hl Hp i j a b Hij Ha Hb.
+  assert (Hfar := far_from_all_spec sc l p Hp).
+  destruct (Nat.lt_ge_cases i (length l)) as [Hi|Hi];
+  destruct (Nat.lt_ge_cases j (length l)) as [Hj|Hj].
+  - rewrite nth_error_app1 in Ha, Hb by assumption. eapply Hl; eauto.
+  - rewrite nth_error_app1 in Ha by assumption. rewrite nth_error_app2 in Hb by assumption.
+    destruct (j - length l)%nat as [|m] eqn:E; simpl in Hb; [|destruct m; discriminate].
+    inversion Hb; subst b. rewrite d2_sym. apply Hfar. eapply nth_error_In; eauto.
+  - rewrite nth_error_app2 in Ha by assumption. rewrite nth_error_app1 in Hb by assumption.
+    destruct (i - length l)%nat as [|m] eqn:E; simpl in Ha; [|destruct m; discriminate].
+    inversion Ha; subst a. apply Hfar. eapply nth_error_In; eauto.
+  - rewrite nth_error_app2 in Ha, Hb by assumption.
+    destruct (i - length l)%nat as [|m] eqn:E; simpl in Ha; [|destruct m; discriminate].
+    destruct (j - length l)%nat as [|m'] eqn:E'; simpl in Hb; [|destruct m'; discriminate].
+    lia.
+Qed.
+
+Lemma step_samples : forall sc nx ny k st it st' o,
+  step sc nx ny k st it = Some (st', o) ->
+  samples st' = samples st \/
+  exists i p, o = Accept i p /\ samples st' = samples st ++ [p] /\
+              out_of_domain sc nx ny p = false /\ far_from_all sc (samples st) p = true.
+Proof.
+  intros sc nx ny k st [idx cands] st' o H. unfold step in H.
+  destruct (mem_nat idx (active st)); [|discriminate].
+  destruct (inner sc nx ny (samples st) 0 k cands) as [i p| |] eqn:Ei; inversion H; subst; simpl; auto.
+  right. exists i, p. apply inner_accept in Ei. intuition.
+Qed.
+
+Lemma step_pairwise_far : forall sc nx ny k st it st' o,
+  step sc nx ny k st it = Some (st', o) ->
+  pairwise_far sc (samples st) -> pairwise_far sc (samples st').
+Proof.
+  intros sc nx ny k st it st' o H Hinv.
+  destruct (step_samples _ _ _ _ _ _ _ _ H) as [E|(i & p & _ & E & _ & Hf)]; rewrite E; auto.
+  now apply pairwise_far_snoc.
+Qed.
+
+Lemma run_trace_invariant : forall (P : list pt -> Prop) sc nx ny k,
+  (forall st it st' o, step sc nx ny k st it = Some (st', o) -> P (samples st) -> P (samples st')) ->
+  forall its st st' os, run_trace sc nx ny k st its = Some (st', os) -> P (samples st) -> P (samples st').
+Proof.
+  intros P sc nx ny k Hstep its. induction its as [|it rest IH]; intros st st' os H HP; simpl in H.
+  - inversion H; subst; auto.
+  - destruct (step sc nx ny k st it) as [[st1 o]|] eqn:Es; [|discriminate].
+    destruct (run_trace sc nx ny k st1 rest) as [[st2 os2]|] eqn:Er; [|discriminate].
+    inversion H; subst. eapply IH; eauto.
+Qed.
+
+Lemma run_invariant : forall (P : list pt -> Prop) sc nx ny k,
+  (forall st it st' o, step sc nx ny k st it = Some (st', o) -> P (samples st) -> P (samples st')) ->
+  forall its st st', run sc nx ny k st its = Some st' -> P (samples st) -> P (samples st').
+Proof.
+  intros P sc nx ny k Hstep its st st' H HP. unfold run in H.
+  destruct (run_trace sc nx ny k st its) as [[st2 os]|] eqn:Er; [|discriminate].
+  inversion H; subst. eapply run_trace_invariant; eauto.
+Qed.
+
+(* ★ bluenoise_spacing: in every state reachable from the initial sample over ANY stream of chosen
+   indices and candidate points, any two distinct samples are at squared distance > r^2 = sc^2 *)
+Theorem bluenoise_spacing : forall sc nx ny k x0 its st,
+  run sc nx ny k (init x0) its = Some st ->
+  forall i j a b, i <> j ->
+    nth_error (samples st) i = Some a -> nth_error (samples st) j = Some b ->
+    sc * sc < d2 a b.
+Proof.
+  intros sc nx ny k x0 its st H.
+  change (pairwise_far sc (samples st)).
+  eapply (run_invariant (pairwise_far sc)); eauto.
+  - intros; eapply step_pairwise_far; eauto.
+  - apply pairwise_far_single.
+Qed.
+
+(* ------------------------------------------------------------------ domain invariant *)
+Definition in_domain (sc nx ny : Z) (p : pt) : Prop :=
+  0 <= fst p <= sc * nx /\ 0 <= snd p <= sc * ny.
+
+Lemma step_in_domain : forall sc nx ny k st it st' o,
+  step sc nx ny k st it = Some (st', o) ->
+  Forall (in_domain sc nx ny) (samples st) -> Forall (in_domain sc nx ny) (samples st').
+Proof.
+  intros sc nx ny k st it st' o H Hinv.
+  destruct (step_samples _ _ _ _ _ _ _ _ H) as [E|(i & p & _ & E & Ho & _)]; rewrite E; auto.
+  apply Forall_app. split; auto. constructor; [|constructor].
+  now apply out_of_domain_false.
+Qed.
+
+Theorem bluenoise_samples_in_domain : forall sc nx ny k x0 its st,
+  in_domain sc nx ny x0 ->
+  run sc nx ny k (init x0) its = Some st ->
+  Forall (in_domain sc nx ny) (samples st).
+Proof.
+  intros sc nx ny k x0 its st Hx0 H.
+  eapply (run_invariant (Forall (in_domain sc nx ny))); eauto.
+  - intros; eapply step_in_domain; eauto.
+  - simpl. constructor; auto.
+Qed.
+
+Lemma Qmake_unit_interval : forall x d, 0 < d -> 0 <= x <= d ->
+  (0 <= Qmake x (Z.to_pos d) <= 1)%Q.
+Proof.
+  intros x d Hd Hx. unfold Qle. simpl. rewrite Z2Pos.id by assumption. lia.
+Qed.
+
+Lemma Qmake_open_unit_interval : forall x d, 0 < d -> 0 < x < d ->
+  (0 < Qmake x (Z.to_pos d) < 1)%Q.
+Proof.
+  intros x d Hd Hx. unfold Qlt. simpl. rewrite Z2Pos.id by assumption. lia.
+Qed.
+
+(* ★ bluenoise_in_domain: for EVERY grid shape nx, ny >= 1 (nx <> ny included) every returned point
+   lies in the closed unit square *)
+Theorem bluenoise_in_unit_square : forall sc nx ny k x0 its out,
+  0 < sc -> 1 <= nx -> 1 <= ny ->
+  (0 <= fst x0 <= sc * nx /\ 0 <= snd x0 <= sc * ny) ->
+  bluenoise sc nx ny k x0 its = Some out ->
+  forall q, In q out -> (0 <= fst q <= 1 /\ 0 <= snd q <= 1)%Q.
+Proof.
+  intros sc nx ny k x0 its out Hsc Hnx Hny Hx0 H q Hq.
+  unfold bluenoise in H.
+  destruct (run sc nx ny k (init x0) its) as [st|] eqn:Er; [|discriminate].
+  inversion H; subst out. apply in_map_iff in Hq. destruct Hq as (p & Hp & Hin).
+  assert (HF := bluenoise_samples_in_domain sc nx ny k x0 its st Hx0 Er).
+  rewrite Forall_forall in HF. destruct (HF p Hin) as [Hx Hy].
+  subst q. unfold normalise. simpl.
+  split; apply Qmake_unit_interval; auto; nia.
+Qed.
+
+(* the number of returned points = 1 + number of accepted candidates; never empty *)
+Lemma bluenoise_nonempty : forall sc nx ny k x0 its st,
+  run sc nx ny k (init x0) its = Some st -> samples st <> [].
+Proof.
+  intros sc nx ny k x0 its st H.
+  eapply (run_invariant (fun l => l <> [])); eauto.
+  - intros st0 it st' o Hs Hne.
+    destruct (step_samples _ _ _ _ _ _ _ _ Hs) as [E|(i & p & _ & E & _)]; rewrite E; auto.
+    destruct (samples st0); simpl; discriminate.
+  - simpl. discriminate.
+Qed.
+
+(* ------------------------------------------------------------------ hyperuniform *)
+(* ★ hyperuniform crop: whatever the kicked points are, every returned point is strictly inside the
+   unit square *)
+Theorem hyperuniform_in_open_unit_square : forall sc final_points q,
+  0 < sc -> In q (hyperuniform sc final_points) ->
+  (0 < fst q < 1 /\ 0 < snd q < 1)%Q.
+Proof.
+  intros sc pts q Hsc Hq. unfold hyperuniform, hyperuniform_crop in Hq.
+  apply in_map_iff in Hq. destruct Hq as (p & Hp & Hin).
+  apply filter_In in Hin. destruct Hin as [_ Hb]. unfold inside_open_unit in Hb.
+  subst q. unfold to_unit. simpl.
+  split; apply Qmake_open_unit_interval; auto; lia.
+Qed.
+
+(* nothing is invented and nothing inside is lost: the output is exactly the inside points, in order *)
+Lemma hyperuniform_crop_complete : forall sc pts p,
+  In p pts -> inside_open_unit sc p = true -> In p (hyperuniform_crop sc pts).
+Proof. intros. unfold hyperuniform_crop. apply filter_In. auto. Qed.
+
+Lemma hyperuniform_count_le : forall sc pts, (length (hyperuniform sc pts) <= length pts)%nat.
+Proof.
+  intros. unfold hyperuniform, hyperuniform_crop. rewrite map_length.
+  induction pts as [|a l IH]; simpl; [lia|]. destruct (inside_open_unit sc a); simpl; lia.
+Qed.
+
+(* ------------------------------------------------------------------ uniform *)
 Lemma uniform_length : forall n draw, length (uniform n draw) = n.
 Proof. intros n draw. unfold uniform. now rewrite map_length, seq_length. Qed.
